@@ -398,6 +398,29 @@ def time_items_round_trip(ctx, repo, rule):
     ctx.floor(rule, "Time texts written and read back", n, 100)
 
 
+def write_through(ctx, repo, rule):
+    """the structures' set_value / async_set_value hand (pos, length, newvalue) unchanged to the device-write callback on
+    every path: no write is dropped (a "same as the last request" short-cut never learns that the block changed
+    meanwhile), altered or delayed between the accessor and the connection"""
+    from ..cfg import cfg_of
+    from ..pathrules import pass_through
+    n_wt = 0
+    for cname, mname in (("GeckoStructure", "set_value"), ("GeckoAsyncStructure", "set_value"), ("GeckoAsyncStructure", "async_set_value")):
+        wfi = repo.method(cname, mname, required=False)
+        if wfi is None:
+            ctx.error(f"write-through anchor {cname}.{mname} vanished")
+            continue
+        verdict, detail = pass_through(cfg_of(wfi), wfi, 3)
+        if verdict is None:
+            ctx.error(f"{cname}.{mname}: {detail} - idiom not supported by the write-through rule")
+            continue
+        n_wt += 1
+        ctx.ob(rule, f"{cname}.{mname}::write-through", verdict,
+               f"{cname}.{mname} does not always deliver the write to the device callback: {detail}; an accessor write that is dropped here produces no device write, so the item does not read back the written value",
+               wfi.loc, sample={"rule": rule, "setter": f"{cname}.{mname}", "delegate": detail})
+    ctx.floor(rule, "structure setters analysed", n_wt, 3)
+
+
 def check(ctx):
     repo = Repo()
     T = tables(repo)
@@ -418,25 +441,12 @@ def check(ctx):
     ctx.rule("R11", "temperature items read back what was written: for every 16-bit word, both units and both writers, writing the value the item presents for that word hands the same word to the device write (C14's exhaustive float read-back on the reader's / writers' own float programs, borrowed)")
     from .c14 import exact_read_back
     exact_read_back(ctx.borrowed("R11", "C14"), repo, "R6")
+    ctx.rule("R16", "a temperature write depends on ANOTHER item - the units item - and the tables label that item in two ways (a whole byte labelled F, C on most platforms; two bits labelled C, F on inXM): unit item and temperature item built by their constructors on real bytes, for every shipped shape of the units item x both units x nine words across the range, both writers hand the device the word that reads back as the value written - a writer that tells Celsius by the raw index instead of the label converts with the other unit's formula on the eight inXM tables (C14.R8 borrowed)")
+    from .c14 import temperature_on_real_bytes as _torb2
+    _torb2(ctx.borrowed("R16", "C14", key_contains="::writes-back::"), repo, "R8")
     ctx.rule("R10", "no other item changes: within one table, two items whose bit fields share a bit and of which one is writable exist only where the published layout (baseline pin of the audited commit) already has them - a table edit that widens a field into its neighbour, or moves an item onto another, makes a write change another item although every merge stays inside its own mask")
     field_overlaps(ctx, repo, T, "R10")
-    from ..cfg import cfg_of
-    from ..pathrules import pass_through
-    n_wt = 0
-    for cname, mname in (("GeckoStructure", "set_value"), ("GeckoAsyncStructure", "set_value"), ("GeckoAsyncStructure", "async_set_value")):
-        wfi = repo.method(cname, mname, required=False)
-        if wfi is None:
-            ctx.error(f"write-through anchor {cname}.{mname} vanished")
-            continue
-        verdict, detail = pass_through(cfg_of(wfi), wfi, 3)
-        if verdict is None:
-            ctx.error(f"{cname}.{mname}: {detail} - idiom not supported by C02.R8")
-            continue
-        n_wt += 1
-        ctx.ob("R8", f"{cname}.{mname}::write-through", verdict,
-               f"{cname}.{mname} does not always deliver the write to the device callback: {detail}; an accessor write that is dropped here produces no device write, so the item does not read back the written value",
-               wfi.loc, sample={"rule": "R8", "setter": f"{cname}.{mname}", "delegate": detail})
-    ctx.floor("R8", "structure setters analysed", n_wt, 3)
+    write_through(ctx, repo, "R8")
 
     shapes = {}
     per_item = []
